@@ -77,6 +77,13 @@ def gen_cases(ctx):
             nf = rng.random() < 0.3
             known = rng.random() < 0.9
             prots.append([s, nf, known])
+            # identical / near-identical proteins under other transcripts with other flags: digestion
+            # depends on (sequence, cds_start_NF, known), so nothing may be shared between them
+            if rng.random() < 0.35:
+                s2 = s if rng.random() < 0.7 else (s[1:] if rng.random() < 0.5 else 'M' + s)
+                prots.append([s2, rng.random() < 0.5, rng.random() < 0.9])
+        if rng.random() < 0.5:
+            rng.shuffle(prots)
         c = dict(kind='pool', rule=rule, exc=exc, prots=prots)
         c.update(lim_of(rng))
         cases.append(c)
